@@ -112,6 +112,22 @@ def polyNearTie (p : Poly) : Bool :=
    let exact := (p.ext :: holes).all ringExact
    if net = 0 then !exact else !exact && rabs net < tiny * ae)
 
+/-- the `Triangle`s of a geometry -/
+partial def trisOf : Geom → List (Pt × Pt × Pt)
+  | .triangle a b c => [(a, b, c)]
+  | .collection gs => gs.flatMap trisOf
+  | _ => []
+
+/-- a triangle on which the f64 branch `unsigned_area() > 0` of `add_triangle` (after the `fix:` a thin triangle whose
+computed area is zero is weighted like a flat one) may differ from the exact one -/
+def triNearTie (t : Pt × Pt × Pt) : Bool :=
+  let (a, b, c) := t
+  let cp := crossProd a b c
+  let mag := rabs (b.x - a.x) * rabs (c.y - a.y) + rabs (b.y - a.y) * rabs (c.x - a.x)
+  let m := [a, b, c].foldl (fun m p => rmax m (rmax (rabs p.x) (rabs p.y))) 0
+  let span := rabs (b.x - a.x) + rabs (b.y - a.y) + rabs (c.x - a.x) + rabs (c.y - a.y)
+  cp != 0 && !(ringExact [a, b, c, a]) && (rabs cp < tiny * mag || rabs cp * 1099511627776 < m * span)
+
 /-! #### convex hull (monotone chain, exact) and the tolerant membership test -/
 
 def lexLe (a b : Pt) : Bool := a.x < b.x || (a.x == b.x && a.y ≤ b.y)
@@ -239,7 +255,7 @@ def evalGeom (g : Geom) : Eval :=
   let cabs := match model with | some c => rmax (rabs c.x) (rabs c.y) | none => 0
   let tol := 16 * uRound * (n : Rat) * kappa * kr * (maxAbs coords + diamBound coords + cabs)
   let skip :=
-    if polys.any polyNearTie then some "near-tie-area"
+    if polys.any polyNearTie || (trisOf g).any triNearTie then some "near-tie-area"
     else if !as.isEmpty && w = 0 then some "zero-total-weight"
     else none
   { g := g, coords := coords, model := model, spec := centroidSpec lenD g, tol := tol,
@@ -290,7 +306,13 @@ def handleCen (inp out : List String) : String :=
   | some g, some o =>
     let e := evalGeom g
     match e.skip with
-    | some why => skip why
+    | some why =>
+      -- a near-tie excuses which branch the f64 code took, never a non-finite result or a panic on a non-empty geometry
+      (match o with
+       | .isome _ _ => if o.pt?.isNone && !isEmpty e.g && why != "zero-total-weight" then
+           reply false "FAIL:non-finite" (classOf e) (optStr e.model) (String.intercalate " " out) else skip why
+       | .ipanic => reply false "FAIL:panic" (classOf e) (optStr e.model) "panic"
+       | _ => skip why)
     | none => reply (sameAsModel e o) (propCen e o) (classOf e) (optStr e.model) (String.intercalate " " out)
   | _, _ => "ERR parse"
 
